@@ -190,7 +190,7 @@ func (p *Prog) Flatten(anchors map[string]bool) ([]string, error) {
 		funcs = append(funcs, f)
 	}
 	for _, f := range funcs {
-		if !anchors[p.AnchorName(f)] && f.Parent() == nil {
+		if !anchors[p.AnchorName(f)] && f.Parent() == nil && !strings.HasPrefix(f.Synthetic, "bound method wrapper") {
 			// a non-anchor function is only ever looked at through its inlined copies
 			continue
 		}
